@@ -11,6 +11,10 @@ import (
 	"verif/props/c02"
 	"verif/props/c03"
 	"verif/props/c04"
+	"verif/props/c05"
+	"verif/props/c06"
+	"verif/props/c08"
+	"verif/props/c18"
 )
 
 var registry = map[string]func(fw.Config, *fw.Rec){
@@ -18,6 +22,10 @@ var registry = map[string]func(fw.Config, *fw.Rec){
 	"C02": c02.Run,
 	"C03": c03.Run,
 	"C04": c04.Run,
+	"C05": c05.Run,
+	"C06": c06.Run,
+	"C08": c08.Run,
+	"C18": c18.Run,
 }
 
 func main() {
